@@ -351,10 +351,16 @@ where
                                     }
                                 }
 
+                                // a range that ends before it starts selects nothing
+                                let count = match end >= start {
+                                    true => (*end as i64 - *start as i64) as usize + 1,
+                                    false => 0,
+                                };
+
                                 top_level_con_items
                                     .iter()
                                     .skip(*start as usize)
-                                    .take((end - start) as usize + 1)
+                                    .take(count)
                                     .map(usize::clone)
                                     .for_each(|i| items.push(i));
                             }
